@@ -24,6 +24,7 @@ import (
 	"io"
 	"os"
 	"path/filepath"
+	"runtime/pprof"
 	"strconv"
 	"strings"
 	"sync"
@@ -44,21 +45,41 @@ type c15Stdin struct {
 	IsFile  bool
 	release func()      // make a blocked Read return (idempotent)
 	cleanup func()      // close what was opened
-	blocked func() bool // a Read call on R is in progress right now (non-file kinds)
+	blocked func() bool // a Read call on R has been in progress for at least c15BlockedFor (non-file kinds)
 }
 
-// c15TrackReader knows whether somebody is inside Read
+// c15TrackReader knows whether a Read call is in progress and since when
 type c15TrackReader struct {
-	r  io.Reader
-	in int32
+	r     io.Reader
+	mu    sync.Mutex
+	in    int
+	since time.Time // start of the oldest Read call in progress
 }
 
 func (t *c15TrackReader) Read(p []byte) (int, error) {
-	atomic.AddInt32(&t.in, 1)
-	defer atomic.AddInt32(&t.in, -1)
+	t.mu.Lock()
+	if t.in == 0 {
+		t.since = time.Now()
+	}
+	t.in++
+	t.mu.Unlock()
+	defer func() {
+		t.mu.Lock()
+		t.in--
+		t.mu.Unlock()
+	}()
 	return t.r.Read(p)
 }
-func (t *c15TrackReader) inRead() bool { return atomic.LoadInt32(&t.in) > 0 }
+
+// c15BlockedFor = how long a Read call must have been in progress to count as "blocked in Read" (a reader that yields every
+// 50 ms is inside Read nearly all the time, but never for long)
+const c15BlockedFor = time.Second
+
+func (t *c15TrackReader) blockedInRead() bool {
+	t.mu.Lock()
+	defer t.mu.Unlock()
+	return t.in > 0 && time.Since(t.since) >= c15BlockedFor
+}
 
 // c15SlowReader yields one byte per period (at most limit bytes, then EOF); after release() it returns EOF at once
 type c15SlowReader struct {
@@ -107,7 +128,7 @@ func c15MakeStdin(kind string) *c15Stdin {
 	st := &c15Stdin{Kind: kind, release: func() {}, cleanup: func() {}, blocked: func() bool { return false }}
 	track := func(r io.Reader) {
 		t := &c15TrackReader{r: r}
-		st.R, st.blocked = t, t.inRead
+		st.R, st.blocked = t, t.blockedInRead
 	}
 	switch kind {
 	case "file:/dev/null":
@@ -200,7 +221,7 @@ type c15WaitRes struct {
 	ErrOut       string
 	Late         float64 // seconds between the context becoming done and the return, when the call returned on its own
 	Released     bool    // the watchdog fired: stdin was released
-	StdinBlocked bool    // … and at that moment a Read on Config.Stdin was in progress
+	StdinBlocked bool    // … and at that moment a Read on Config.Stdin had been in progress for a second or more
 	AfterRelease float64 // seconds between the release and the return
 	NeededKill   bool    // returned only after the leftover children were killed as well
 	Hung         bool    // never returned
@@ -353,6 +374,14 @@ func c15RunWait(wc c15WaitCase, bound time.Duration) (res c15WaitRes) {
 	case <-wd.C:
 		res.Released = true
 		res.StdinBlocked = st.blocked()
+		if f := os.Getenv("C15_DEBUG_DUMP"); f != "" && !(wc.Inherits && (wc.Stdin == "io.Pipe:never-written" || wc.Stdin == "slow:4s")) {
+			// debugging aid: all goroutine stacks at the moment an unexpected run missed its bound
+			if fh, err := os.OpenFile(f, os.O_APPEND|os.O_CREATE|os.O_WRONLY, 0o644); err == nil {
+				fmt.Fprintf(fh, "==== %s | %s | %s | %s %dms | %s\n", wc.Wait, wc.Place, wc.Stdin, wc.Ctx, wc.DelayMs, wc.Prog)
+				pprof.Lookup("goroutine").WriteTo(fh, 2)
+				fh.Close()
+			}
+		}
 		relAt := time.Now()
 		st.release()
 		select {
@@ -505,13 +534,9 @@ func c15GenWaitCases(c *vh.Ctx, file string) []c15WaitCase {
 
 // c15StartWaitStream runs the two command streams in the background (they mostly sleep) and returns a function that
 // waits for them. Nothing of vh.Ctx is touched from the background goroutine except c.Rng BEFORE it starts.
-func c15StartWaitStream(c *vh.Ctx) func() *c15WaitStream {
+func c15StartWaitStream(c *vh.Ctx, dir string) func() *c15WaitStream {
 	ws := &c15WaitStream{}
-	dir, err := os.MkdirTemp("", "c15w")
-	if err != nil {
-		panic(err)
-	}
-	ws.dir = dir
+	ws.dir = dir // removed by the caller when everything, the re-runs included, is over
 	file := filepath.Join(dir, "records.txt")
 	if err := os.WriteFile(file, []byte("r1\nr2\nr3\n"), 0o644); err != nil {
 		panic(err)
@@ -532,28 +557,32 @@ func c15StartWaitStream(c *vh.Ctx) func() *c15WaitStream {
 			st.cleanup()
 			ws.outs[i] = c15WaitOut{wc: wc, st: st, r: c15RunWait(wc, bound), idx: i}
 		})
-		// a miss of the wall bound that is not of the G15-1 class may be due to the load of the machine: once more, alone,
-		// with three times the bound
-		for i := range ws.outs {
-			o := &ws.outs[i]
-			if o.r.Skipped || o.r.Hung || !o.r.Released || c15IsG151(o.wc, o.st, o.r) {
-				continue
-			}
-			wc := o.wc
-			wc.BoundS = 3 * bound.Seconds()
-			r := c15RunWait(wc, 3*bound)
-			o.re = &r
-		}
 		ws.leftovers = c15KillLeftovers()
 		ws.wallWait = time.Since(t0).Seconds()
 		c15Pool(len(ws.equiv), 8, func(i int) { c15RunEquiv(&ws.equiv[i]) })
 		ws.wallAll = time.Since(t0).Seconds()
-		os.RemoveAll(dir)
 	}()
 	return func() *c15WaitStream { <-done; return ws }
 }
 
+// c15RetryMisses: a miss of the wall bound that is not of the G15-1 class may be due to the load of the machine (this
+// process runs its CPU-bound streams at the same time): once more, when nothing else runs in this process, with three times
+// the bound
+func c15RetryMisses(ws *c15WaitStream) {
+	for i := range ws.outs {
+		o := &ws.outs[i]
+		if o.r.Skipped || o.r.Hung || !o.r.Released || c15IsG151(o.wc, o.st, o.r) {
+			continue
+		}
+		wc := o.wc
+		r := c15RunWait(wc, time.Duration(3*wc.BoundS*float64(time.Second)))
+		o.re = &r
+	}
+	ws.leftovers += c15KillLeftovers()
+}
+
 func c15ReportWaitStream(c *vh.Ctx, ws *c15WaitStream) {
+	c15RetryMisses(ws)
 	for _, o := range ws.outs {
 		wc, r := o.wc, o.r
 		if r.Skipped {
@@ -660,8 +689,8 @@ func c15WaitCorrespondence(c *vh.Ctx, ws *c15WaitStream) {
 		c.Trace()
 		c.Hit("correspondence:wait-state")
 		f := strings.Fields(a)
-		stuckObserved := o.r.Released && o.r.StdinBlocked && !o.r.NeededKill
 		metBound := !o.r.Released || (o.re != nil && !o.re.Released && !o.re.Hung)
+		stuckObserved := o.r.Released && o.r.StdinBlocked && !o.r.NeededKill && !metBound
 		bad := ""
 		switch {
 		case len(f) == 2 && f[0] == "stuck":
